@@ -752,6 +752,7 @@ TOP:
 		_ = root.assureType(obj, tt)
 		if fd = tt.GetField(field.Name); fd != nil {
 			fd.mu.Lock()
+			verifPoint("rr_check", fd)
 			if len(fd.goField) == 0 && fd.method == nil {
 				err = root.regField(tt, fd, field.Name)
 			}
@@ -761,6 +762,7 @@ TOP:
 		_ = root.assureType(obj, &tt.Object)
 		if fd = tt.GetField(field.Name); fd != nil {
 			fd.mu.Lock()
+			verifPoint("rr_check", fd)
 			if len(fd.goField) == 0 && fd.method == nil {
 				err = root.regField(&tt.Object, fd, field.Name)
 			}
@@ -777,6 +779,7 @@ TOP:
 	}
 	if fd != nil {
 		fd.mu.Lock()
+		verifPoint("rr_copy", fd)
 		goField := fd.goField
 		method := fd.method
 		fd.mu.Unlock()
@@ -786,6 +789,7 @@ TOP:
 				ov = ov.Elem()
 			}
 			if ov.Kind() == reflect.Struct {
+				verifPoint("rr_use", fd)
 				if fv := ov.FieldByName(fd.goField); fv.IsValid() {
 					value = fv.Interface()
 				}
